@@ -166,6 +166,14 @@ impl<B: Buffer> History<B> {
     }
 }
 
+#[cfg(feature = "verif-hooks")]
+impl<B: Buffer> History<B> {
+    /// Used part of buffer and cursor
+    pub fn verif_raw(&self) -> (&[u8], Option<usize>) {
+        (&self.buffer.as_slice()[..self.used], self.cursor)
+    }
+}
+
 #[cfg(test)]
 mod tests {
     use crate::history::History;
